@@ -10,6 +10,9 @@ import (
 // genIllegalScript: a script over {N,E,C} that may continue after its terminal.
 func genIllegalScript(g *Gen, base int) []Step {
 	n := g.Range(0, 8)
+	if g.Tier == "thorough" {
+		n = g.Range(0, 12)
+	}
 	var sc []Step
 	v := base
 	for i := 0; i < n; i++ {
